@@ -4,6 +4,7 @@ import (
 	"encoding/json"
 	"errors"
 	"fmt"
+	"sync"
 
 	"github.com/apache/arrow-go/v18/arrow"
 	"github.com/apache/arrow-go/v18/arrow/array"
@@ -28,7 +29,12 @@ type ErrSpec struct {
 	// Kind: "rpc" (*vgirpc.RpcError{Type,Message,Kind}), "plain" (errors.New),
 	// "wrapped" (fmt.Errorf("%w") around errors.New), "wrapped-rpc"
 	// (fmt.Errorf("%w") around an RpcError), "custom" (*CustomError),
-	// "custom-kind" (*KindedError, implements ErrorKind()).
+	// "custom-kind" (*KindedError, implements ErrorKind()), "rpc-sentinel" (ONE
+	// package-level *vgirpc.RpcError value per (Type, Msg), returned again and
+	// again across calls, like an exported ErrNotFound), "rpc-preset-id" (a
+	// fresh *RpcError whose RequestID field is already set to PresetRequestID,
+	// like an error relayed from an upstream client call). On the wire both
+	// must look exactly like "rpc", with the CURRENT call's request id.
 	Kind  string
 	Type  string
 	Msg   string
@@ -146,6 +152,10 @@ func (e ErrSpec) Build() error {
 	switch e.Kind {
 	case "rpc":
 		return &vgirpc.RpcError{Type: e.Type, Message: e.Msg, Kind: e.EKind}
+	case "rpc-sentinel":
+		return sentinelFor(e.Type, e.Msg)
+	case "rpc-preset-id":
+		return &vgirpc.RpcError{Type: e.Type, Message: e.Msg, RequestID: PresetRequestID}
 	case "plain":
 		return errors.New(e.Msg)
 	case "wrapped":
@@ -158,6 +168,28 @@ func (e ErrSpec) Build() error {
 		return &KindedError{K: e.EKind, M: e.Msg}
 	}
 	return errors.New("svc: unknown ErrSpec kind " + e.Kind)
+}
+
+// PresetRequestID is the foreign request id carried by "rpc-preset-id" errors.
+const PresetRequestID = "upstream-req-7"
+
+var (
+	sentinelMu sync.Mutex
+	sentinels  = map[[2]string]*vgirpc.RpcError{}
+)
+
+// sentinelFor returns THE error value for (typ, msg): the same pointer for
+// every call in the process.
+func sentinelFor(typ, msg string) *vgirpc.RpcError {
+	sentinelMu.Lock()
+	defer sentinelMu.Unlock()
+	k := [2]string{typ, msg}
+	if e, ok := sentinels[k]; ok {
+		return e
+	}
+	e := &vgirpc.RpcError{Type: typ, Message: msg}
+	sentinels[k] = e
+	return e
 }
 
 // Value materialises a scripted panic value.
